@@ -331,6 +331,94 @@ def check_orderings(chk, prog):
               "ReadOptimizedLock::read hands out the shared reference without an Acquire fence after observing the ReadOk token: a reader may see the data as it was before the writer's unlock", rd.loc)
 
 
+RAW_WRITES = ("core::ptr::write", "core::ptr::copy_nonoverlapping", "core::ptr::copy", "core::ptr::write_bytes", "core::ptr::write_volatile",
+              "ptr::mut_ptr::<impl *mut T>::write", "ptr::mut_ptr::<impl *mut T>::copy_from_nonoverlapping", "ptr::mut_ptr::<impl *mut T>::write_bytes")
+GUARD_ACQUIRE = ("ReadOptimizedLock::read", "ReadOptimizedLock::lock", "Mutex::lock", "RwLock::read", "RwLock::write")
+PTR_PASS = ("::add", "::offset", "::cast", "::as_ptr", "::as_mut_ptr", "::sub", "::wrapping_add", "::cast_mut", "::cast_const", "Deref>::deref", "DerefMut>::deref_mut",
+            "Result::unwrap", "::get", "slice::from_raw_parts_mut")
+
+
+def _guard_sources(f, operand, depth=0, seen=None):
+    """guard-acquiring calls the pointer operand is derived from (through pointer arithmetic, as_ptr and the guard's deref)"""
+    if seen is None:
+        seen = set()
+    out = set()
+    for a in f.origins(operand):
+        if a in seen:
+            continue
+        seen.add(a)
+        if a[0] == "call":
+            c = f.call_at(a[2])
+            if c is None:
+                continue
+            if c.p.endswith(GUARD_ACQUIRE):
+                out.add(c.bb)
+            elif c.args and depth < 8 and c.p.endswith(PTR_PASS):
+                out |= _guard_sources(f, c.args[0], depth + 1, seen)
+        elif a[0] == "bin" and depth < 8:
+            st = f.stmt(a[2], a[3])
+            from ..facts import rv_operands
+            for o in rv_operands(st[2]):
+                out |= _guard_sources(f, o, depth + 1, seen)
+    return out
+
+
+def check_guard_spans_raw(chk, prog):
+    R = chk.rule("R-GUARD-SPANS-RAW", "egglog_concurrency: a raw write (ptr::write / copy_nonoverlapping / ...) through a pointer obtained from behind a lock guard (ReadOptimizedLock::read/lock, "
+                 "Mutex::lock, RwLock::read/write) happens while that guard is still alive: no path from the acquisition to the write passes the guard's drop (scope end or mem::drop). "
+                 "The guard is what keeps a concurrent resize from freeing the buffer the pointer points into")
+    n = 0
+    for f in prog.lib_fns(["egglog_concurrency"]):
+        writes = [c for c in f.calls if c.p.endswith(RAW_WRITES) or c.d.endswith(RAW_WRITES)]
+        for w in writes:
+            # destination pointer: first argument of ptr::write(dst, v); second of copy_nonoverlapping(src, dst, n)
+            di = 1 if w.p.endswith(("copy_nonoverlapping", "ptr::copy")) else 0
+            if di >= len(w.args):
+                continue
+            acq = _guard_sources(f, w.args[di])
+            if not acq:
+                continue
+            n += 1
+            bad = None
+            for ab in acq:
+                a = f.call_at(ab)
+                G = a.dest[0]
+                drops = set()
+                for b in f.live:
+                    t = f.term(b)
+                    if t[0] == "drop" and t[1][0] == G and not t[1][1]:
+                        drops.add(b)
+                for c2 in f.calls:
+                    if c2.p.endswith("mem::drop") and c2.args and c2.args[0][0] in ("m", "c") and c2.args[0][1][0] == G:
+                        drops.add(c2.bb)
+                    # moved into a copy local then dropped
+                reach_a = f.reach(ab)
+                for d in drops:
+                    if d in reach_a and (w.bb in f.reach(d)):
+                        # a loop back edge from after-the-function's-end is impossible; but a drop inside a loop before re-acquisition is fine
+                        if ab in f.reach(d) and not _reaches_avoiding(f, d, w.bb, {ab}):
+                            continue
+                        bad = (a, d)
+            chk.judge(bad is None, R, f"{f.root or f.name}:{w.p.rsplit('::', 1)[-1]}", "raw write happens under the guard that pins the buffer",
+                      "the lock guard the destination pointer was obtained through can be dropped before the raw write: a concurrent writer may resize (reallocate) the buffer in "
+                      "between and the write lands in freed memory", w.loc)
+    chk.floor(R, n, 2, "raw writes through guarded pointers (ParallelVecWriter::write_contents_at, write_slice_raw)")
+
+
+def _reaches_avoiding(f, src, dst, avoid):
+    seen = set()
+    stack = list(f.succ[src])
+    while stack:
+        x = stack.pop()
+        if x in seen or x in avoid:
+            continue
+        seen.add(x)
+        if x == dst:
+            return True
+        stack.extend(f.succ[x])
+    return False
+
+
 def run(chk, prog, tier):
     chk.explanation = EXPLANATION
     chk.assumptions = ["rustc nightly MIR construction", "unwinding out of the job closure is excluded by catch_unwind (checked), other unwind paths are not part of 'every path'"]
@@ -340,3 +428,4 @@ def run(chk, prog, tier):
     check_lock(chk, prog)
     check_publish(chk, prog)
     check_orderings(chk, prog)
+    check_guard_spans_raw(chk, prog)
